@@ -89,7 +89,7 @@ func LoadProgram(repoDir string, patterns []string) (*Program, error) {
 	if nerr > 0 {
 		return nil, fmt.Errorf("%d load errors in /repo packages", nerr)
 	}
-	prog, spkgs := ssautil.AllPackages(pkgs, ssa.InstantiateGenerics)
+	prog, spkgs := ssautil.AllPackages(pkgs, ssa.InstantiateGenerics|ssa.GlobalDebug)
 	P := &Program{Prog: prog, Funcs: map[string]*ssa.Function{}, RepoDir: repoDir}
 	for _, sp := range spkgs {
 		if sp != nil && inRepoPkg(sp.Pkg) {
